@@ -6,8 +6,8 @@ import c13ref as R
 
 META = {
     "category": "proof",
-    "text": "Lean theorems over two executable models of src/liblzma/common/index.c: an abstract list-of-records spec (Index = List StreamRec) and a concrete model with Stream/group trees, cumulative sums, number bases, the Check mask, the count-driven tree append, cat/dup and the iterator: the concrete model refines the spec for every history of append/stream_flags/stream_padding/cat/dup, failing operations leave the index unchanged, the sequential tree append keeps the in-order sequence and (for every count < 2^32) the exact spine shape with height <= floor(log2 count)+1, the concrete locate (tree descent + binary search) and the concrete iterator (all modes, ITER_METHOD_* indirection, also across an append/cat between two next calls) equal the spec's locate/iterate, locate returns the unique non-empty Block containing the offset, the Index field codec round-trips, and the backward parser of file_info.c returns exactly the cat of the Streams' indexes (flags and padding set) on every well-formed multi-Stream file built from the container encoders; scalar kernels and constants are regenerated from the source and bridged by `decide`. Tie: random op histories (values near every limit, group boundaries 512+-1, stream-tree rotation counts 2^k+-1, empty Blocks, malformed Index fields, generated multi-Stream files for lzma_file_info_decoder with many read sizes) run against the real lzma_index_* API, the Lean model driver and an independent Python list-of-records reference; all getters and full iterations must agree. Real multi-Stream/multi-Block files made by the repo's xz: every Block located through the file-info index is decoded on its own (by Python's lzma module) and must equal its range of the data; `xz --list --robot -vv` must show the same figures.",
-    "note": "Trusted: Lean kernel + propext/Classical.choice/Quot.sound; the probe harness/gen_c13.c; the harness; the C compiler; memory safety of the C code only as observed by ASan/UBSan/asserts. LZMA_BACKWARD_SIZE_MAX rules are proved in the model and bridged as constants but cannot be reached by a run (needs ~10^9 Records). Not proved: random_access (needs the Block decoder composed with the index; kept as `random_access_statement`), the chunked/seeking state machine of file_info.c (only whole-file semantics in Lean), parent links of the tree (not in the functional model).",
+    "text": "Lean theorems over two executable models of src/liblzma/common/index.c: an abstract list-of-records spec (Index = List StreamRec) and a concrete model with Stream/group trees, cumulative sums, number bases, the Check mask, the count-driven tree append, cat/dup and the iterator: the concrete model refines the spec for every history of append/stream_flags/stream_padding/cat/dup, failing operations leave the index unchanged, the sequential tree append keeps the in-order sequence and (for every count < 2^32) the exact spine shape with height <= floor(log2 count)+1, the concrete locate (tree descent + binary search) and the concrete iterator (all modes, ITER_METHOD_* indirection, also across an append/cat between two next calls) equal the spec's locate/iterate, locate returns the unique non-empty Block containing the offset, the Index field codec round-trips, and the backward parser of file_info.c returns exactly the cat of the Streams' indexes (flags and padding set) on every well-formed multi-Stream file built from the container encoders; scalar kernels and constants are regenerated from the source and bridged by `decide`. Tie: random op histories (values near every limit, group boundaries 512+-1, stream-tree rotation counts 2^k+-1, empty Blocks, malformed Index fields, generated multi-Stream files for lzma_file_info_decoder with many read sizes) run against the real lzma_index_* API, the Lean model driver and an independent Python list-of-records reference; all getters and full iterations must agree. Real multi-Stream/multi-Block files made by the repo's xz: every Block located through the file-info index is decoded on its own (by Python's lzma module) and must equal its range of the data, and the model's Block decoder (RandomAccess.blockAt over the model of the real raw decoder) started at the same offsets must return the same ranges; `xz --list --robot -vv` must show the same figures. random_access (theorem): for every file given as Streams of declarative Blocks, the whole-file decoder yields the Blocks' data in order and, for every Block the file-info index lists (and every locate target), the Block decoder started at the listed compressed offset returns exactly the listed range of that data.",
+    "note": "Trusted: Lean kernel + propext/Classical.choice/Quot.sound; the probe harness/gen_c13.c; the harness; the C compiler; memory safety of the C code only as observed by ASan/UBSan/asserts. LZMA_BACKWARD_SIZE_MAX rules are proved in the model and bridged as constants but cannot be reached by a run (needs ~10^9 Records). random_access is proved over the container decoder model of C05 (Model/XzDecode.lean) for files described Block by Block (declarative Blocks, any payload decoder with PayloadLocal; output capacity threaded explicitly); its Block-at-offset function is also run on the real files (model_blockat). Not proved: the chunked/seeking state machine of file_info.c (only whole-file semantics in Lean), parent links of the tree (not in the functional model).",
     "technique": "Lean 4 proof over an executable model + regenerated constants/kernels + differential correspondence + Python reference oracle",
 }
 
@@ -823,10 +823,11 @@ def make_real_file(rng, xz, quick):
     return out, data
 
 
-def judge_real_file(exe, xz, filebytes, data, chunk, seed, workdir):
+def judge_real_file(exe, xz, filebytes, data, chunk, seed, workdir, collect=None):
     """Runs the file-info decoder of the implementation on a real file and checks its index against the data
     (every Block decoded on its own by Python's lzma module = the system liblzma, an independent build) and
-    against `xz --list --robot -vv`. Returns an error text or None."""
+    against `xz --list --robot -vv`. Returns an error text or None. `collect` (a list) receives
+    (check, compressed_file_offset, uncompressed_file_offset, uncompressed_size, total_size) of every Block."""
     import lzma, subprocess
     ops = ["reset", "finfo 0 %d %d %d %s" % (1 << 40, chunk, seed, R.hexs(filebytes)), "sum 0", "iter 0 1", "iter 0 2"]
     rc, out, err = run_hist(exe, ops, timeout=900)
@@ -858,6 +859,8 @@ def judge_real_file(exe, xz, filebytes, data, chunk, seed, workdir):
             return "Block %d at compressed offset %d (unpadded %d) does not decode: %s" % (nif, cfo, unp, ex)
         if got != data[ufo:ufo + usz]:
             return "Block %d decodes to other bytes than data[%d:%d]" % (nif, ufo, ufo + usz)
+        if collect is not None:
+            collect.append((chk, cfo, ufo, usz, tot))
     # xz --list
     path = os.path.join(workdir, "real-%d.xz" % os.getpid())
     with open(path, "wb") as f:
@@ -892,6 +895,29 @@ def judge_real_file(exe, xz, filebytes, data, chunk, seed, workdir):
     return None
 
 
+def model_blockat(mexe, filebytes, data, blocks, k):
+    """Model side of random access on a real file: returns (number of Blocks, error text or None)."""
+    ents = []
+    for n, (chk, cfo, ufo, usz, tot) in enumerate(blocks):
+        # output space: exactly the Block's size / what the front-to-back decoder has / plenty
+        cap = [usz, (1 << 62) - ufo, 1 << 62][(n + k) % 3]
+        ents.append("%d,%d,%d" % (chk, cfo, cap))
+    rc, out, err = vlib.run_lines([mexe], ["blockat %s %s" % (";".join(ents), R.hexs(filebytes))], timeout=900)
+    if rc == 124:
+        return 0, None
+    if rc != 0 or len(out) != 1:
+        return len(blocks), "model driver failed: " + err[-300:]
+    ans = out[0].split(" | ")
+    if len(ans) != len(blocks):
+        return len(blocks), "model driver answered %d entries for %d Blocks: %s" % (len(ans), len(blocks), out[0][:200])
+    for a, (chk, cfo, ufo, usz, tot) in zip(ans, blocks):
+        f = a.split(" ")
+        want_hex = data[ufo:ufo + usz].hex() or "-"
+        if len(f) != 4 or f[0] != "1" or int(f[1]) != tot or (f[3] or "-") != want_hex:
+            return len(blocks), "Block at %d (check %d, data[%d:%d], total size %d): model answers %s" % (cfo, chk, ufo, ufo + usz, tot, a[:200])
+    return len(blocks), None
+
+
 def real_files_stage(ctx, exe):
     okr, log, bd = vlib.c_build("rel", targets=["xz"])
     xz = os.path.join(bd, "xz")
@@ -913,20 +939,42 @@ def real_files_stage(ctx, exe):
         cases.append((fb, data, rng.choice([len(fb) + 1, 1 if len(fb) < 3000 else 7, 13, 4096, 8192, 8193, 70000]),
                       rng.choice([0, 0, rng.randrange(1, 1 << 30)])))
 
+    mexe = vlib.model_exe("xzm_c13")
+    have_model = os.path.exists(mexe)
+
     # one private directory per case: the temporary file name only depends on the pid
     def one(kc):
         k, c = kc
         d = os.path.join(workdir, "real-%d-%d" % (os.getpid(), k))
         os.makedirs(d, exist_ok=True)
+        blocks = []
         try:
-            return judge_real_file(exe, xz, c[0], c[1], c[2], c[3], d)
+            r = judge_real_file(exe, xz, c[0], c[1], c[2], c[3], d, collect=blocks)
         finally:
             try:
                 os.rmdir(d)
             except OSError:
                 pass
+        # tie of Props/C13 `random_access`: the MODEL's Block decoder at the offsets of the real index
+        # (RandomAccess.blockAt with the model of the real raw decoder and checks) must return exactly the Block's range
+        m = None
+        if r is None and have_model and blocks:
+            m = model_blockat(mexe, c[0], c[1], blocks, k)
+        return r, m
 
-    res = vlib.par_map(one, list(enumerate(cases)))
+    res2 = vlib.par_map(one, list(enumerate(cases)))
+    res = [r for r, _ in res2]
+    nmb, nmbad = 0, 0
+    for c, (_, m) in zip(cases, res2):
+        if m is None:
+            continue
+        nmb += m[0]
+        if m[1] is not None:
+            nmbad += 1
+            if nmbad <= 2:
+                ctx.obligation_broken("correspondence C13: the model's Block decoder at an offset of the real index (RandomAccess.blockAt, "
+                                      "Props/C13 random_access) differs from the data of the real file", (m[1] + " file=" + c[0].hex())[:2900])
+    ctx.cov["correspondence"]["model_blockat"] = {"blocks": nmb, "files_mismatching": nmbad, "model_ran": have_model}
     bad = 0
     for c, r in zip(cases, res):
         ctx.case(("realfile", len(c[0]), len(c[1]), c[2], c[3], c[0][:64].hex()), nontrivial=True, sample=None)
@@ -1110,7 +1158,10 @@ def run(ctx):
 
 
 def replay(ctx, path):
-    r = json.load(open(path))
+    import replaylib
+    r = replaylib.load("C13", path)
+    if "ops" not in r and "realfile_hex" not in r:
+        return replaylib.obligations("C13", run, r, path)
     exe = build_all(ctx)
     if exe is None:
         print("cannot build")
